@@ -37,7 +37,7 @@ func init() {
 			if a.Counters["roundtrip_ok"] < 1000 || a.SetSize("kinds") < 60 {
 				return fmt.Errorf("too few observations: ok=%d kinds=%d", a.Counters["roundtrip_ok"], a.SetSize("kinds"))
 			}
-			return nil
+			return needKinds(a, "kinds", "switch", "ctrl")
 		},
 		Assumptions: []string{
 			"field values are compared through the extractor trees (exported fields, unexported ones by reflection); representation-only differences are normalised: 4- vs 16-byte net.IP, nil vs empty slice, note padded with zeros to the encoded size",
